@@ -17,6 +17,12 @@ ASSUMPTIONS = [
     "the stream producer obeys valid/ready (payload stable while valid and not ready); its payload lines carry "
     "garbage while valid is low",
     "the PID of a zero-length packet sent after the frame's data is exhausted (or in an empty frame) is not asserted",
+    "tx.ready is driven the way USBDataPacketGenerator drives it (device.py attaches endpoint tx to transmitter.stream; "
+    "packet.py: stream.ready is 0 in IDLE, SEND_PID and both CRC states and follows the PHY only in SEND_PAYLOAD). The "
+    "generator is idle whenever a token's ready_for_response arrives (a host sends no token while the device "
+    "transmits), so tx.ready is never high in the single cycle in which this endpoint presents a ZLP; a sink that "
+    "drives tx.ready freely during a ZLP is not generated (a change that is visible only then is out of reach of this "
+    "check AND of any real device: confirmed on a full USBDevice, see reports/fix-misses-a.md)",
 ]
 
 # (max_packet_size, endpoint number)
